@@ -312,4 +312,48 @@ example : (match swap 64 1000000000 { m0 with viSwaps := some ⟨9000000000, 100
     | .ok (m', c) => [c.impactValue, c.impactAmount, c.tokenOut, (m'.viSwaps.getD {}).long, (m'.viSwaps.getD {}).short]
     | .error _ => []) = [-25920, 25920, 99904080, 9099948180, 900095920] := by decide +kernel
 
+/-! ### Audit additions -/
+
+/-- the claimable-fee pool of the OUTPUT token is not touched (`swap_pools_positive/negative` state
+the fee pool of the input side only; this completes the pool-by-pool picture). -/
+theorem swap_fee_out_untouched {W U : Nat} {m m' : Market} {q : SwapParams} {c : SwapCalc}
+    (h : swap W U m q = .ok (m', c)) :
+    m'.fee.amount (!q.isInLong) = m.fee.amount (!q.isInLong) := by
+  obtain ⟨_, _, _, ha, _⟩ := swap_ok h
+  exact (swapApply_spec ha).fee_out
+
+/-- `swap_fail_unchanged`: its hypothesis `(swapStep …).2 = .error e` holds on the failing swap above. -/
+example : (match (swapStep 64 1000000000 m0 ⟨true, 2000000000, pr0⟩).2 with
+    | .error e => some e | .ok _ => none) = some MErr.fail := by decide +kernel
+/-- the two validation failures `swap_validated_after` excludes, raised on the NEW pools: the input
+side above `maxPoolAmount`, the output side below its reserve. -/
+example : errOf (swap 64 1000000000 { m0 with cfg := { cfg0 with maxPoolAmount := 3000000000 } } ⟨true, 100000000, pr0⟩)
+    = some .poolAmount := by decide +kernel
+example : errOf (swap 64 1000000000 { m0 with cfg := { cfg0 with reserveFactor := 0 }, oiL := ⟨1, 1⟩, oitL := ⟨1, 1⟩ }
+    ⟨false, 100000000, pr0⟩) = some .reserve := by decide +kernel
+/-- `swap_reachable`: a NON-EMPTY history — a deposit, a clock tick, a swap and a withdrawal, all of
+which succeed — followed by a swap that succeeds (positive impact 1 053). -/
+example : obs (swap 64 1000000000
+      (liqRun 64 1000000000 m0 [.deposit ⟨50000000, 20000000, pr0⟩, .tick 7, .swap ⟨true, 100000000, pr0⟩,
+        .withdraw ⟨10000000, pr0⟩]) ⟨false, 30000000, pr0⟩)
+    = [1053, 1053, 0, 29986053, 7453, 326, 3112232519, 947806162, 40854, 11315] := by decide +kernel
+example : (deposit 64 1000000000 m0 ⟨50000000, 20000000, pr0⟩ PerpIn.zero).2.toOption.isSome = true ∧
+    (withdraw 64 1000000000
+      (liqRun 64 1000000000 m0 [.deposit ⟨50000000, 20000000, pr0⟩, .tick 7, .swap ⟨true, 100000000, pr0⟩])
+      ⟨10000000, pr0⟩ PerpIn.zero).2.toOption.isSome = true := by decide +kernel
+/-- `swaps_history_conserved` on a concrete history of three swaps (the second one fails and moves
+nothing): the net flows and the holdings before/after, per token side. -/
+example : (swapFlow 64 1000000000 m0 [⟨true, 100000000, pr0⟩, ⟨true, 2000000000, pr0⟩, ⟨false, 30000000, pr0⟩] true,
+     swapFlow 64 1000000000 m0 [⟨true, 100000000, pr0⟩, ⟨true, 2000000000, pr0⟩, ⟨false, 30000000, pr0⟩] false)
+    = (70013958, -69923280) := by decide +kernel
+example : (([⟨true, 100000000, pr0⟩, ⟨true, 2000000000, pr0⟩, ⟨false, 30000000, pr0⟩] : List SwapParams).foldl
+      (fun m q => (swapStep 64 1000000000 m q).1) m0).holdings true = m0.holdings true + 70013958 := by decide +kernel
+/-- `swapImpact_worse_of_two`: real impact −6 720, virtual-inventory impact −25 920 → the worse one;
+without the virtual inventory the real one. -/
+example : swapImpactValue 64 1000000000 cfg0.swapImpact (some ⟨9000000000, 1000000000⟩)
+      ⟨3000000000, 1000000000, 3100000000, 900000000⟩ 100000000 (-100000000) 1 1 true = some (-25920, .worsened) ∧
+    swapImpactValue 64 1000000000 cfg0.swapImpact (some ⟨9000000000, 1000000000⟩)
+      ⟨3000000000, 1000000000, 3100000000, 900000000⟩ 100000000 (-100000000) 1 1 false = some (-6720, .worsened) := by
+  decide +kernel
+
 end Gmx.C04
